@@ -83,9 +83,11 @@ Call(id, req, inverted, invertible, n) ==
     /\ hist' = Append(hist, <<>>)
     /\ UNCHANGED <<built, last>>
 
-\* Op::apply returns
-Ret(id, count) ==
+\* Op::apply returns; `ran` names the function of the operator that did the work: its forward function
+\* iff the operator was to work forward after taking its own `inv` into account
+Ret(id, count, ran) ==
     /\ Len(frames) > 0 /\ Top.id = id /\ last = None
+    /\ ran = Top.eff
     /\ count <= Top.n
     /\ IF Top.pipe
        THEN /\ Top.k = NSteps(Top)
